@@ -89,7 +89,7 @@ def stage_trace(chk, bins, scenario, trace_module, invariants=(), variant="dbg-n
         else:
             line = info.get("unmatched_line")
             ev = vlib.trace_line(tpath, line) if line else None
-            keep = os.path.join(vlib.VERIF, "replays", chk.pid)
+            keep = os.path.join(vlib.OUT_BASE, "replays", chk.pid)
             os.makedirs(keep, exist_ok=True)
             kept = os.path.join(keep, "%s_seed%d.ndjson" % (scenario, seed))
             # keep the prefix up to and including the rejected event
@@ -106,9 +106,59 @@ def stage_trace(chk, bins, scenario, trace_module, invariants=(), variant="dbg-n
 
 # ---------------------------------------------------------------------------
 
+def stage_mech_plainbv(chk, n):
+    base = {"W": 4, "RB": 2, "SB": 4, "BL": 2, "N": n, "MaskLast": "TRUE", "LongIdxBug": "FALSE", "ThrReal": "FALSE"}
+    res = vlib.run_tlc(chk.work, "MC_PlainBV", "PlainBV", cfg_consts(base) + MC_TAIL + "INVARIANT Refines\n", workers=16, timeout=2400)
+    vlib.tlc_must_pass(res, "mech/PlainBV")
+    chk.add_tlc(res, "mech/PlainBV (Layer B): rank9 + select-mcl with scaled constants (4-bit words, 2-word rank blocks, 4-one superblocks, 2-one blocks) "
+                     "refine Layer A on every bit sequence <= %d bits: rank, select, select_zero, predecessor, successor at every argument" % n)
+    # sensitivity of the model: with the long-array index shifted by one (the mutant the property names) Refines must fail
+    mut = dict(base)
+    mut["LongIdxBug"] = "TRUE"
+    mut["N"] = 6
+    res2 = vlib.run_tlc(chk.work, "MC_PlainBV_mut", "PlainBV", cfg_consts(mut) + MC_TAIL + "INVARIANT Refines\n", workers=4, timeout=600)
+    if not res2.violation:
+        raise ToolError("self-test failed: mech/PlainBV with the long-array index off by one does not violate Refines")
+    chk.cov["stages"].append({"stage": "self-test: mech/PlainBV with LongIdxBug = TRUE violates Refines (the model is sensitive to the named mutant)", "ok": True})
+
+
+def stage_layout_drift(chk, bins):
+    """Layer B <-> code: predicted vs serialized support structures.  A difference is MODEL-DRIFT, never a violation."""
+    tpath = os.path.join(chk.work, "layout.ndjson")
+    out = chk.run_harness(bins["dbg-native"], ["record", "layout", "--seed", str(chk.seed), "--tier", "thorough" if chk.thorough else "quick", "--out", tpath], "record serialized support structures")
+    if out is None:
+        return
+    try:
+        ok, info, res = vlib.validate_trace(chk.work, "T_layout", "TraceLayout", tpath, heap="8g", timeout=3000)
+    except ToolError as e:
+        chk.cov["model_drift"] = {"status": "not evaluated", "reason": str(e)[:300]}
+        return
+    chk.add_tlc(res, "TraceLayout: rank samples, select superblock samples, long and short arrays predicted by mech/PlainBV at the real constants vs the serialized structures", {"accepted": ok})
+    chk.cov["model_drift"] = {"status": "none" if ok else "MODEL-DRIFT", "info": info}
+    if not ok:
+        log("MODEL-DRIFT property=%s: the serialized support structures differ from mech/PlainBV's prediction at event %s (not a violation)" % (chk.pid, info.get("unmatched_line")))
+
+
+def stage_mech_oneiter(chk):
+    for checks in ("TRUE", "FALSE"):
+        res = vlib.run_tlc(chk.work, "MC_OneIter_" + checks, "OneIter", cfg_consts({"W": 4, "N": 7 if chk.thorough else 6, "UB": 6, "Checks": checks, "FixNth": "TRUE"}) +
+                           "SPECIFICATION Spec\nINVARIANT Safe\nINVARIANT Agree\nCHECK_DEADLOCK FALSE\n", workers=16, timeout=1800)
+        vlib.tlc_must_pass(res, "mech/OneIter")
+        chk.add_tlc(res, "mech/OneIter (Layer B): the word-scanning set-bit iterator with 6-bit usize arithmetic (overflow checks %s): never reads past the last word "
+                         "(Safe) and agrees with the deque (Agree) under every interleaving of nth(k) / next_back, k in {0,1,2,MAX-1,MAX}" % ("on" if checks == "TRUE" else "off, wrapping"))
+    res = vlib.run_tlc(chk.work, "MC_OneIter_mut", "OneIter", cfg_consts({"W": 4, "N": 3, "UB": 6, "Checks": "FALSE", "FixNth": "FALSE"}) +
+                       "SPECIFICATION Spec\nINVARIANT Safe\nCHECK_DEADLOCK FALSE\n", workers=4, timeout=600)
+    if not res.violation:
+        raise ToolError("self-test failed: mech/OneIter with the unclamped next + n does not violate Safe")
+    chk.cov["stages"].append({"stage": "self-test: mech/OneIter with the unclamped comparison (F1) violates Safe with wrapping arithmetic", "ok": True})
+
+
 def check_C01(chk):
     bins = vlib.build_harness(["dbg-native"])
     stage_bvref(chk, 11 if chk.thorough else 9)
+    stage_mech_plainbv(chk, 13 if chk.thorough else 11)
+    if chk.thorough:
+        stage_layout_drift(chk, bins)
     stage_gen_bv(chk, bins, ["plain"], 11 if chk.thorough else 10, FAMILY_THOROUGH if chk.thorough else FAMILY_QUICK)
     total = stage_trace(chk, bins, "plain", "TraceBV", invariants=("ObjWellFormed",), seeds=3 if chk.thorough else 1)
     chk.cov["regimes"] = total
@@ -246,6 +296,7 @@ def gen_iter_histories(chk, maxn, ks="{0, 1, 2}"):
 
 def check_C10(chk):
     bins = vlib.build_harness(["dbg-native"])
+    stage_mech_oneiter(chk)
     nbits = 10 if chk.thorough else 9
     hist = gen_iter_histories(chk, nbits + 1)
     contents, res = vlib.generate_cases(chk.work, "GenBV_iter", "GenBV",
@@ -673,6 +724,7 @@ def check_C08(chk):
     variants = ["rel-native", "rel-generic"] + (["dbg-native"] if chk.thorough else [])
     bins = vlib.build_harness(variants)
     chk.scratch_tmpdir()
+    stage_mech_oneiter(chk)
     nbits = 8 if chk.thorough else 7
     p1, p2, p3 = gen_bv_sets(chk, nbits, FAMILY_QUICK)
     hist = gen_iter_histories(chk, nbits + 1)
